@@ -103,6 +103,12 @@ class Rows:
 
 
 class Col:
+    def __getattr__(self, name):
+        # (only reached for attributes this row model does not have)
+        if name.startswith("__"):
+            raise AttributeError(name)
+        raise core.Unsupported(f"pandas operation '{name}' is outside the row-level table model")
+
     def __init__(self, rows: Rows, kind, fn, isna=None, name="col"):
         self.rows = rows
         self.kind = kind  # 'item' | 'int' | 'real'
@@ -147,6 +153,12 @@ class Col:
 
 
 class BoolCol:
+    def __getattr__(self, name):
+        # (only reached for attributes this row model does not have)
+        if name.startswith("__"):
+            raise AttributeError(name)
+        raise core.Unsupported(f"pandas operation '{name}' is outside the row-level table model")
+
     def __init__(self, rows, fn):
         self.rows = rows
         self.fn = fn
@@ -216,6 +228,12 @@ class ItemPosMap:
 
 
 class SymTable:
+    def __getattr__(self, name):
+        # (only reached for attributes this row model does not have)
+        if name.startswith("__"):
+            raise AttributeError(name)
+        raise core.Unsupported(f"pandas operation '{name}' is outside the row-level table model")
+
     def __init__(self, rows: Rows, cols, index_cols=None):
         self.rows = rows
         self.cols = dict(cols)  # ordered
@@ -397,6 +415,12 @@ class FakeItertools:
 
 
 class FakeIndex:
+    def __getattr__(self, name):
+        # (only reached for attributes this row model does not have)
+        if name.startswith("__"):
+            raise AttributeError(name)
+        raise core.Unsupported(f"pandas operation '{name}' is outside the row-level table model")
+
     """a pandas (Multi)Index: named levels over a row set"""
 
     def __init__(self, rows, cols):
